@@ -1,13 +1,15 @@
 // overlaygen writes a `go build -overlay` file that (1) maps the shim package
 // github.com/tigerwill90/fox/verifsync into the fox module as a virtual directory and (2) replaces
 // every non-test Go file of the listed fox packages (fox, clientip, internal/{simplelru,netutil,iterutil}) that imports "sync" or "sync/atomic" by a copy
-// whose import is the shim (import substitution only; /repo itself is never modified).
+// whose import is the shim, and every channel send/receive/close outside select statements by a call into the shim
+// (textual substitution at AST positions; /repo itself is never modified).
 package main
 
 import (
 	"encoding/json"
 	"flag"
 	"fmt"
+	"go/ast"
 	"go/parser"
 	"go/token"
 	"os"
@@ -57,7 +59,7 @@ func main() {
 				fatal(err)
 			}
 			fset := token.NewFileSet()
-			af, err := parser.ParseFile(fset, f, src, parser.ImportsOnly)
+			af, err := parser.ParseFile(fset, f, src, 0)
 			if err != nil {
 				fatal(fmt.Errorf("parse %s: %w", f, err))
 			}
@@ -66,6 +68,56 @@ func main() {
 				text       string
 			}
 			var edits []edit
+			// channel operations outside select statements become shim calls (scheduling points with
+			// blocking semantics); the file then also imports the shim under the name vsChan
+			off := func(p token.Pos) int { return fset.Position(p).Offset }
+			txt := func(n ast.Node) string { return string(src[off(n.Pos()):off(n.End())]) }
+			chanOps := 0
+			var walk func(n ast.Node) bool
+			walk = func(n ast.Node) bool {
+				switch x := n.(type) {
+				case *ast.SelectStmt:
+					fmt.Fprintf(os.Stderr, "overlaygen: %s: select statement left as it is (not modelled)\n", fset.Position(x.Pos()))
+					for _, cl := range x.Body.List {
+						if cc, ok := cl.(*ast.CommClause); ok {
+							for _, st := range cc.Body {
+								ast.Inspect(st, walk)
+							}
+						}
+					}
+					return false
+				case *ast.SendStmt:
+					edits = append(edits, edit{off(x.Pos()), off(x.End()), "vsChan.ChanSend(" + txt(x.Chan) + ", " + txt(x.Value) + ")"})
+					chanOps++
+					return false
+				case *ast.AssignStmt:
+					if len(x.Lhs) == 2 && len(x.Rhs) == 1 {
+						if u, ok := x.Rhs[0].(*ast.UnaryExpr); ok && u.Op == token.ARROW {
+							edits = append(edits, edit{off(u.Pos()), off(u.End()), "vsChan.ChanRecv2(" + txt(u.X) + ")"})
+							chanOps++
+							return false
+						}
+					}
+				case *ast.UnaryExpr:
+					if x.Op == token.ARROW {
+						edits = append(edits, edit{off(x.Pos()), off(x.End()), "vsChan.ChanRecv(" + txt(x.X) + ")"})
+						chanOps++
+						return false
+					}
+				case *ast.CallExpr:
+					if id, ok := x.Fun.(*ast.Ident); ok && id.Name == "close" && len(x.Args) == 1 {
+						edits = append(edits, edit{off(x.Pos()), off(x.End()), "vsChan.ChanClose(" + txt(x.Args[0]) + ")"})
+						chanOps++
+						return false
+					}
+				}
+				return true
+			}
+			ast.Inspect(af, walk)
+			if chanOps > 0 {
+				at := off(af.Name.End())
+				edits = append(edits, edit{at, at, "\n\nimport vsChan " + strconv.Quote(shimPath) + "\n"})
+			}
 			for _, im := range af.Imports {
 				p, _ := strconv.Unquote(im.Path.Value)
 				if p != "sync" && p != "sync/atomic" {
